@@ -74,8 +74,10 @@ def _tla_unescape(s):
 def parse_output(out, res=None):
     res = res or TLCResult()
     res.output = out
-    for m in _CASE_RE.finditer(out):
-        res.cases.append(json.loads(_tla_unescape(m.group(1))))
+    # TLC's workers print cases in a schedule-dependent order: sort the raw payloads, so that the seed alone decides
+    # which cases a stratified sample contains (reproducible runs and replays)
+    for raw in sorted(m.group(1) for m in _CASE_RE.finditer(out)):
+        res.cases.append(json.loads(_tla_unescape(raw)))
     for m in _VERDICT_RE.finditer(out):
         res.verdicts.append((int(m.group(1)), m.group(2), int(m.group(3)), m.group(4)))
     ms = _STATS_RE.findall(out)
